@@ -353,6 +353,31 @@ func runC11(c *core.Ctx, o Options) {
 				} else {
 					ob.Fail("%s", failed)
 				}
+			case *ssa.Call:
+				// library calls that panic on a negative count: bytes.Repeat, strings.Repeat
+				if cal := an.StaticCallee(&x.Call); cal != nil && cal.Pkg != nil && (cal.Pkg.Pkg.Path() == "bytes" || cal.Pkg.Pkg.Path() == "strings") && an.NameOf(cal) == "Repeat" && len(x.Call.Args) == 2 {
+					if k, isK := an.ConstInt(x.Call.Args[1]); isK && k >= 0 {
+						return
+					}
+					ob := c.Ob("bounds", an.NameOf(fn), "repeat count of "+an.Render(x), x.Pos())
+					failed, nPaths := "", 0
+					for _, p := range getPaths() {
+						if !p.Passes(in) {
+							continue
+						}
+						nPaths++
+						pr := an.NewProver(fn, p, in, inv)
+						if ok, _ := pr.Prove(pr.Lin(x.Call.Args[1])); !ok {
+							failed = fmt.Sprintf("the count %s is not known to be non-negative on the path [%s]: %s.Repeat panics with a negative count", pr.Lin(x.Call.Args[1]).String(), p.CondString(), cal.Pkg.Pkg.Name())
+							break
+						}
+					}
+					if failed == "" && nPaths > 0 {
+						ob.Ok("count ≥ 0 on each of %d path(s)", nPaths)
+					} else {
+						ob.Fail("%s", failed)
+					}
+				}
 			case *ssa.MakeChan:
 				if _, isC := an.ConstInt(x.Size); !isC {
 					c.Ob("bounds", an.NameOf(fn), "buffer size of "+an.Render(x), x.Pos()).Fail("a channel is made with the non-constant size %s on the inbound path: a negative or huge size panics", an.Render(x.Size))
@@ -449,6 +474,11 @@ func runC11(c *core.Ctx, o Options) {
 		c.Check(nCalls >= 1, "nilcall", "", "LogonHandler call found", token.NoPos, fmt.Sprint(nCalls), "no call of Session.LogonHandler found (anchor moved)")
 		s.checkRestingSide("nilcall")
 	}
+	// ---- nil interface fields in the parser: a method call on an interface-typed struct field (u.Validator.Do(msg)) panics when the
+	// field is nil. Either the call is behind a nil test of the field, or every construction of that struct inside the library
+	// stores a non-nil value in the field on every path.
+	checkInterfaceFieldsSet(c, "nilcall", fns)
+	checkBuildersValidated(c, "nilcall", fns)
 	c.Extra["bounds_sites"] = nSites
 	c.Extra["discharged_by_compiler"] = nGC
 	c.Extra["discharged_by_linear_engine"] = nLin
@@ -456,8 +486,10 @@ func runC11(c *core.Ctx, o Options) {
 	// precond (premise): a retransmission never hands a nil message to the send path — the store's range lookup fails on a
 	// missing entry instead of returning a list with holes
 	checkStorageMessages(c, "precond")
+	c.Explanation += " nilcall also: every message builder (field of MessageBuilders) that a function on the inbound path calls without a nil test is one that Opts.validate looks at (an optional builder the validation never reads can be nil)."
+	c.Explanation += " nilcall also: every method call on an interface-typed struct field in the parser packages (fix, fix/encoding) is behind a nil test of the field, or every construction of that struct in the library stores a non-nil value in the field on every path (DefaultUnmarshaller.Validator)."
 	c.Explanation += " The connection reader (Conn.runReader) is part of the panic census (bounds, assertions; its read loop is exempt from the termination rule — C13.Z2). precond premise: the store's range lookup fails on a missing entry, so no nil message reaches the send path."
-	c.RuleMin = map[string]int{"assert": 4, "bounds": 24, "precond": 2, "term": 8}
+	c.RuleMin = map[string]int{"assert": 4, "bounds": 24, "precond": 2, "term": 8, "nilcall": 8}
 	c.MinObl = 40
 }
 
@@ -478,10 +510,30 @@ var boundsExceptionReason = "d[:offset+length-1] in the raw validation: the uppe
 // isBoundsException: the one tabled site, identified structurally (slice of parameter d whose high bound is the mirror arithmetic len(d) − |CheckSum field| − 2).
 func isBoundsException(fn *ssa.Function, in ssa.Instruction) bool {
 	sl, ok := in.(*ssa.Slice)
-	if !ok || an.NameOf(fn) != "validateRaw" || sl.Low != nil || sl.High == nil {
+	if !ok || sl.Low != nil || sl.High == nil {
 		return false
 	}
-	if p, ok := sl.X.(*ssa.Parameter); !ok || an.Render(p) != "d" {
+	// the raw validation itself or a step cut out of it (a comparison step that receives the input as its own parameter)
+	if owner, _ := an.LogicalOwner(fn); an.NameOf(fn) != "validateRaw" && (owner == nil || an.NameOf(owner) != "validateRaw") {
+		return false
+	}
+	p, ok := sl.X.(*ssa.Parameter)
+	if !ok {
+		return false
+	}
+	var root ssa.Value = p
+	for i := 0; i < 4; i++ {
+		q, isP := root.(*ssa.Parameter)
+		if !isP || q.Parent() == nil {
+			break
+		}
+		a, has := an.OwnerSub(q.Parent())[q]
+		if !has || a == root {
+			break
+		}
+		root = a
+	}
+	if an.Render(root) != "d" {
 		return false
 	}
 	// premise: on every way to the slice the BodyLength value was tested not null (in the function or in a helper it calls)
@@ -837,4 +889,215 @@ func poolAssertSafe(c *core.Ctx, fn *ssa.Function, x *ssa.TypeAssert) string {
 		return ""
 	}
 	return "tabled exception (premises checked): HandlerPool.handlers is written only by add(); the incoming pool is fed only by IncomingHandlerPool.Add(IncomingHandlerFunc) via HandleIncoming, the outgoing pool only by HandlerPool.Add(OutgoingHandlerFunc) via HandleOutgoing"
+}
+
+// checkInterfaceFieldsSet: see the call site in runC11.
+func checkInterfaceFieldsSet(c *core.Ctx, rule string, fns []*ssa.Function) {
+	type key struct {
+		f *types.Var
+	}
+	sites := map[*types.Var][]*ssa.Call{}
+	owner := map[*types.Var]*types.Named{}
+	var order []*types.Var
+	for _, fn := range fns {
+		if fn.Pkg == nil {
+			continue
+		}
+		if pp := fn.Pkg.Pkg.Path(); !strings.HasSuffix(pp, "/fix") && !strings.HasSuffix(pp, "/fix/encoding") {
+			continue
+		}
+		an.AllInstrs(fn, func(in ssa.Instruction) {
+			call, ok := in.(*ssa.Call)
+			if !ok || !call.Call.IsInvoke() {
+				return
+			}
+			var f *types.Var
+			var base ssa.Value
+			switch x := call.Call.Value.(type) {
+			case *ssa.UnOp:
+				f, base = an.LoadedField(x)
+			case *ssa.Field:
+				f, base = an.FieldOf(x), x.X
+			}
+			if f == nil || base == nil {
+				return
+			}
+			n := an.NamedOf(an.Deref(base.Type()))
+			if n == nil || n.Obj().Pkg() == nil || !strings.HasPrefix(n.Obj().Pkg().Path(), core.ModPath) {
+				return
+			}
+			if nilGuarded(call) {
+				return
+			}
+			if _, seen := sites[f]; !seen {
+				order = append(order, f)
+			}
+			sites[f] = append(sites[f], call)
+			owner[f] = n
+		})
+	}
+	n := 0
+	for _, f := range order {
+		T := owner[f]
+		call := sites[f][0]
+		var bad []string
+		nCons := 0
+		for _, rel := range []string{"", "session", "fix", "fix/encoding", "utils", "storages/memory"} {
+			pkg := c.SSAPkg(rel)
+			if pkg == nil {
+				continue
+			}
+			for _, g := range an.PkgFuncs(pkg) {
+				var allocs []*ssa.Alloc
+				an.AllInstrs(g, func(in ssa.Instruction) {
+					if al, ok := in.(*ssa.Alloc); ok && an.NamedOf(an.Deref(al.Type())) == T {
+						allocs = append(allocs, al)
+					}
+				})
+				if len(allocs) == 0 {
+					continue
+				}
+				paths, _ := an.EnumPaths(g, 2048)
+				for _, al := range allocs {
+					// a local that only receives a copy of another value (*al = *p) is not a construction
+					copied := false
+					for _, ref := range *al.Referrers() {
+						if st, ok := ref.(*ssa.Store); ok && st.Addr == ssa.Value(al) {
+							copied = true
+						}
+					}
+					if copied {
+						continue
+					}
+					nCons++
+					for _, p := range paths {
+						if p.Return == nil || !p.Passes(al) {
+							continue
+						}
+						set := false
+						for _, in := range p.InstrSeq() {
+							if st, ok := in.(*ssa.Store); ok {
+								if fa, ok := st.Addr.(*ssa.FieldAddr); ok && fa.X == ssa.Value(al) && an.FieldOf(fa) == f && !an.IsNilConst(st.Val) {
+									set = true
+								}
+							}
+						}
+						if !set {
+							bad = append(bad, fmt.Sprintf("%s constructs a %s without setting %s under [%s]", an.NameOf(g), T.Obj().Name(), f.Name(), p.CondString()))
+							break
+						}
+					}
+				}
+			}
+		}
+		n++
+		ob := c.Ob(rule, T.Obj().Name()+"."+f.Name(), "an interface field called without a nil test is set by every construction in the library", call.Pos())
+		switch {
+		case len(bad) > 0:
+			ob.Fail("%s: the unguarded call %s in %s then panics with a nil pointer dereference — for exactly the inputs that parse completely", bad[0], an.Render(call), an.NameOf(call.Parent()))
+		default:
+			ob.Ok("%d construction(s) in the library, %d unguarded call site(s)", nCons, len(sites[f]))
+		}
+	}
+	c.Check(n >= 1, rule, "", "unguarded interface-field calls in the parser found", token.NoPos, fmt.Sprint(n), "no method call on an interface field found in the parser (anchor moved)")
+}
+
+// nilGuarded: the call's block is dominated by the true edge of a `field != nil` test (or the false edge of `== nil`) on the same load.
+func nilGuarded(call *ssa.Call) bool {
+	v := call.Call.Value
+	for b := call.Block(); b != nil; b = b.Idom() {
+		idom := b.Idom()
+		if idom == nil || len(idom.Instrs) == 0 {
+			continue
+		}
+		iff, ok := idom.Instrs[len(idom.Instrs)-1].(*ssa.If)
+		if !ok {
+			continue
+		}
+		bo, ok := iff.Cond.(*ssa.BinOp)
+		if !ok || (bo.Op != token.NEQ && bo.Op != token.EQL) {
+			continue
+		}
+		var other ssa.Value
+		switch {
+		case an.IsNilConst(bo.Y):
+			other = bo.X
+		case an.IsNilConst(bo.X):
+			other = bo.Y
+		default:
+			continue
+		}
+		if an.Render(other) != an.Render(v) {
+			continue
+		}
+		if bo.Op == token.NEQ && idom.Succs[0] == b && len(b.Preds) == 1 {
+			return true
+		}
+		if bo.Op == token.EQL && idom.Succs[1] == b && len(b.Preds) == 1 {
+			return true
+		}
+	}
+	return false
+}
+
+// checkBuildersValidated: the message builders are interfaces supplied by the application; Opts.validate refuses options in which
+// a required one is nil. A builder that the inbound path calls without a nil test must at least be read by Opts.validate.
+func checkBuildersValidated(c *core.Ctx, rule string, fns []*ssa.Function) {
+	val := c.Func("session", "Opts.validate")
+	if !c.Anchor("option validation", val != nil, "(*Opts).validate", token.NoPos) {
+		return
+	}
+	read := map[*types.Var]bool{}
+	for _, f := range append([]*ssa.Function{val}, pkgHelpersOf(val)...) {
+		an.AllInstrs(f, func(in ssa.Instruction) {
+			switch x := in.(type) {
+			case *ssa.FieldAddr:
+				read[an.FieldOf(x)] = true
+			case *ssa.Field:
+				read[an.FieldOf(x)] = true
+			}
+		})
+	}
+	type site struct {
+		call *ssa.Call
+		fn   *ssa.Function
+	}
+	used := map[*types.Var]site{}
+	var order []*types.Var
+	for _, fn := range fns {
+		if fn.Pkg == nil || fn.Pkg != val.Pkg {
+			continue
+		}
+		an.AllInstrs(fn, func(in ssa.Instruction) {
+			call, ok := in.(*ssa.Call)
+			if !ok || !call.Call.IsInvoke() {
+				return
+			}
+			var f *types.Var
+			var base ssa.Value
+			switch x := call.Call.Value.(type) {
+			case *ssa.UnOp:
+				f, base = an.LoadedField(x)
+			case *ssa.Field:
+				f, base = an.FieldOf(x), x.X
+			}
+			if f == nil || base == nil {
+				return
+			}
+			n := an.NamedOf(an.Deref(base.Type()))
+			if n == nil || n.Obj().Name() != "MessageBuilders" || nilGuarded(call) {
+				return
+			}
+			if _, seen := used[f]; !seen {
+				order = append(order, f)
+				used[f] = site{call, fn}
+			}
+		})
+	}
+	for _, f := range order {
+		st := used[f]
+		c.Check(read[f], rule, "MessageBuilders."+f.Name(), "a builder called without a nil test on the inbound path is checked by Opts.validate", st.call.Pos(), "read by Opts.validate",
+			an.NameOf(st.fn)+" calls MessageBuilders."+f.Name()+" without a nil test, and Opts.validate never looks at that field: with options that leave it unset (it is optional) the inbound path panics with a nil pointer dereference")
+	}
+	c.Check(len(order) >= 3, rule, "", "builders used on the inbound path found", token.NoPos, fmt.Sprint(len(order)), fmt.Sprintf("only %d builders found on the inbound path", len(order)))
 }
